@@ -79,7 +79,11 @@ pub fn c39_drop_case(src: &mut Src, obs: &mut Obs) -> CaseResult {
     let rest_for_sched: Vec<u8> = vec![];
     let mut sch = Sch::new(rest_for_sched);
     let n = 1 + src.below(7);
-    let kinds: Vec<usize> = (0..n).map(|_| src.below(5)).collect();
+    let kinds: Vec<usize> = (0..n).map(|_| src.below(6)).collect();
+    // signals arriving for the rule streams (one kind of which has room for a single message and is
+    // never polled: the reader stalls on it), and a first use of the object server in the middle
+    let nsig = src.below(4);
+    let late_server_at = if src.chance(100) { Some(src.below(8)) } else { None };
     let handles: Arc<Mutex<Vec<Handle>>> = Default::default();
     let h2 = handles.clone();
     let c2 = conn.clone();
@@ -94,6 +98,7 @@ pub fn c39_drop_case(src: &mut Src, obs: &mut Obs) -> CaseResult {
                 0 => Handle::Conn(c2.clone()),
                 1 => Handle::Stream(zbus::MessageStream::from(&c2)),
                 2 => Handle::Stream(zbus::MessageStream::for_match_rule("type='signal',interface='c39.S'", &c2, None).await.expect("stream")),
+                5 => Handle::Stream(zbus::MessageStream::for_match_rule("type='signal',interface='c39.S',member='Tick'", &c2, Some(1)).await.expect("stream")),
                 3 => Handle::Proxy(zbus::proxy::Builder::new(&c2).destination(":1.5").unwrap().path("/c39").unwrap().interface("c39.I").unwrap().cache_properties(CacheProperties::No).build().await.expect("proxy")),
                 _ => {
                     let p: zbus::Proxy<'static> = zbus::proxy::Builder::new(&c2).destination(":1.5").unwrap().path("/c39").unwrap().interface("c39.I").unwrap().cache_properties(CacheProperties::No).build().await.expect("proxy");
@@ -108,10 +113,27 @@ pub fn c39_drop_case(src: &mut Src, obs: &mut Obs) -> CaseResult {
     }
     let mut hs: Vec<Handle> = std::mem::take(&mut *handles.lock().unwrap());
     hs.push(Handle::Conn(conn));
+    if nsig > 0 {
+        let mut peer = Peer::new(sh.clone(), false);
+        for i in 0..nsig {
+            let m = peer.signal("/c39", "c39.S", "Tick", None, vec![RVal::U(i as u32)]);
+            peer.send(&m);
+        }
+        let _ = sched.run(&mut || sch.next(), 50_000, &mut |_| false);
+    }
+    let mut late_server_done = false;
     let names: Vec<&str> = hs.iter().map(|h| h.kind()).collect();
     let mut order = vec![];
     // drop in a generated order, running the connection in between
     while !hs.is_empty() {
+        if !with_server && !late_server_done && late_server_at.map(|n| order.len() >= n).unwrap_or(false) {
+            // the object server comes into being only now, through whichever connection handle is left
+            if let Some(Handle::Conn(c)) = hs.iter().find(|h| matches!(h, Handle::Conn(_))) {
+                let _ = c.object_server();
+                late_server_done = true;
+                order.push("(object server first used)");
+            }
+        }
         let i = src.below(hs.len());
         let h = hs.remove(i);
         order.push(h.kind());
@@ -144,6 +166,12 @@ pub fn c39_drop_case(src: &mut Src, obs: &mut Obs) -> CaseResult {
         k.len()
     };
     obs.label(if with_server { "with-object-server" } else { "no-object-server" });
+    if late_server_done {
+        obs.label("object-server-first-used-while-dropping");
+    }
+    if nsig >= 2 && kinds.contains(&5) {
+        obs.label("reader-stalled-on-a-full-unpolled-stream");
+    }
     if names.len() >= 3 && kinds_n >= 2 {
         obs.nontrivial(fnv(format!("{names:?}{order:?}{with_server}").as_bytes()));
         obs.sample("drop-order", || format!("handles {names:?}, drop order {order:?}, object server: {with_server}"));
@@ -186,6 +214,17 @@ pub fn c39_shutdown_case(src: &mut Src, obs: &mut Obs) -> CaseResult {
     }
     let done = Arc::new(AtomicBool::new(false));
     let d2 = done.clone();
+    // now and then a second handle shuts down gracefully at the same time: both must complete
+    let twin = if src.chance(100) { Some(conn.clone()) } else { None };
+    let twins = twin.is_some();
+    let done_twin = Arc::new(AtomicBool::new(!twins));
+    let sd2 = twin.map(|c| {
+        let d3 = done_twin.clone();
+        sched.spawn("shutdown-twin", async move {
+            c.graceful_shutdown().await;
+            d3.store(true, Ordering::SeqCst);
+        })
+    });
     let sd = sched.spawn("shutdown", async move {
         conn.graceful_shutdown().await;
         d2.store(true, Ordering::SeqCst);
@@ -209,11 +248,11 @@ pub fn c39_shutdown_case(src: &mut Src, obs: &mut Obs) -> CaseResult {
         return Err(Failure::new("the transport was closed while method handlers were still running"));
     }
     gate.open();
-    let oc = sched.run(&mut || sch.next(), 400_000, &mut |s| s.done(sd));
+    let oc = sched.run(&mut || sch.next(), 400_000, &mut |s| s.done(sd) && sd2.map(|a| s.done(a)).unwrap_or(true));
     peer.pump();
     let replies: Vec<u32> = peer.out.iter().filter(|m| m.mtype == msg::T_RETURN).filter_map(|m| match m.body.first() { Some(RVal::U(x)) => Some(*x), _ => None }).collect();
     if oc != Outcome::Goal {
-        return Err(Failure::new(format!("graceful_shutdown() never completes after the handlers finished ({oc:?}); handlers finished: {}, replies written: {replies:?}", finished.load(Ordering::SeqCst))));
+        return Err(Failure::new(format!("graceful_shutdown() never completes after the handlers finished ({oc:?}; first handle done: {}, second handle shutting down at the same time: {twins}, done: {}); handlers finished: {}, replies written: {replies:?}", done.load(Ordering::SeqCst), done_twin.load(Ordering::SeqCst), finished.load(Ordering::SeqCst))));
     }
     let mut want: Vec<u32> = (0..ncalls).map(|i| 10 * i as u32 + 1).collect();
     let mut got = replies.clone();
@@ -229,6 +268,9 @@ pub fn c39_shutdown_case(src: &mut Src, obs: &mut Obs) -> CaseResult {
     }
     drop(st);
     obs.label("graceful-shutdown");
+    if twins {
+        obs.label("two-handles-shutting-down-at-once");
+    }
     obs.nontrivial(fnv(format!("{ncalls}{extra}{}", sched.steps).as_bytes()));
     obs.sample("shutdown", || format!("{ncalls} gated handler(s); shutdown pending while gated, completed after the replies {replies:?}"));
     Ok(())
